@@ -633,7 +633,7 @@ def run(chk, replay=None):
     lap("implementation")
     # ---- model, inside Coq
     def shard_for(n):
-        return max(40, -(-n // 8))
+        return min(160, max(40, -(-n // 8)))      # larger case files overflow coqc's stack
 
     vidx = by_kind.get("gen", []) + by_kind.get("rt", [])
     if vidx:
@@ -657,11 +657,18 @@ def run(chk, replay=None):
     gen_idx = [i for i in by_kind.get("gen", []) if impl[i].get("kind") == "value" and not impl[i].get("handler")
                and impl[i]["value"].get("t") == "str"]
     model_reads = {}
-    texts = [cases[i]["text"] for i in pidx] + [impl[i]["value"]["v"] for i in gen_idx]
+    # the deep-nesting probes are judged for "no crash" only (check_parse): their texts (up to 400 000 characters) are not
+    # handed to the model — coqc cannot even read such a term
+    deep = [i for i in pidx if cases[i].get("origin") == "deep"]
+    pidx_m = [i for i in pidx if cases[i].get("origin") != "deep"]
+    for i in deep:
+        model[i] = [2]
+    texts = [cases[i]["text"] for i in pidx_m] + [impl[i]["value"]["v"] for i in gen_idx]
     if texts:
         res = core.coq_run_cases("c19p", IMPORTS, "run_parse", [core.zlist(t) for t in texts], shard=shard_for(len(texts)))
-        for i, v in zip(pidx, res[:len(pidx)]):
+        for i, v in zip(pidx_m, res[:len(pidx_m)]):
             model[i] = v
+        pidx = pidx_m
         for i, v in zip(gen_idx, res[len(pidx):]):
             model_reads[i] = v
     lap("model parse (%d)" % len(texts))
